@@ -276,7 +276,8 @@ class Runner(object):
         if res.startswith("err") and link.cur is not None:
             link.cur.track = False      # after an error the host may be out of frame sync: over-request tracking is meaningless
         conn = link.used.index(link.cur) if link.cur in link.used else len(link.used) - 1
-        return dict(conn=conn, res=res, peer=hx(peer), avail=int(bool(d.available)), maxdata=d._maxdata, lid=d._local_id,
+        inoff = link.used[conn].in_off if 0 <= conn < len(link.used) else 0
+        return dict(conn=conn, inoff=inoff, res=res, peer=hx(peer), avail=int(bool(d.available)), maxdata=d._maxdata, lid=d._local_id,
                     storelen=len(d._io_manager._packet_store), now=self.clock.now, locks=locks, sink=sink_s,
                     ev="[" + ",".join(self.link.events) + "]", sink_kind=sink_kind)
 
